@@ -3,7 +3,8 @@
    workers, promise store, HTTP push handlers with retry); monitors: model/IngestSpec.v. *)
 From Coq Require Import List NArith ZArith Bool.
 From Qryn Require Import model.Ingest model.PushHandler model.IngestSpec model.IngestSched proofs.IngestBase proofs.IngestAck
-  proofs.IngestSpecProofs proofs.IngestHandler proofs.IngestDrain proofs.IngestLive proofs.IngestLiveAll.
+  proofs.IngestSpecProofs proofs.IngestHandler proofs.IngestDrain proofs.IngestLive proofs.IngestLiveAll proofs.IngestRows
+  proofs.IngestWait.
 Import ListNotations.
 
 (* For every configuration (workers of any kind / round-robin group / maxQueueSize, retry count), every
@@ -122,3 +123,43 @@ Theorem every_push_is_answered_exactly_once : forall cfg n tr g es (db : gstate 
     forall h, (h < length (hs g))%nat -> count_occ Nat.eq_dec (answered (es ++ es')) h = 1%nat.
 Proof. exact every_push_answered_once. Qed.
 Print Assumptions every_push_is_answered_exactly_once.
+
+(* ack_sound for ARBITRARY requests, stated over rows.  The rows of a request are what ProcessRequest reports as
+   `inserted`: the entries it appended to the key column (nrows).  On every trace the lenient monitor accepts, and what it
+   demands of a success (of a promise, of a handler) is: the request has no row -- Request then acknowledges it at once,
+   there is nothing an INSERT could contain -- or every cell of every column it appended is in ONE block whose Do
+   returned without error.  (What the cells such a row-less request leaves in the buffers do to the next block is C02's
+   bad_request_poisons_batch.) *)
+Theorem ack_sound_over_rows : forall cfg n tr g es,
+  grun (ginit cfg n) tr = Some (g, es) ->
+  run_mon (amon_step false) (amon_init (length cfg)) es <> None /\
+  (forall m e m', amon_step false m e = Some m' ->
+     match e with
+     | EResolve _ k r true =>
+         exists r', eff k r = Some r' /\ (nrows k r' = 0%nat \/ exists b, In b (a_acked m) /\ cells_subb r' b = true)
+     | EAnswer _ reqs true =>
+         forall k r, In (k, r) reqs ->
+           exists r', eff k r = Some r' /\ (nrows k r' = 0%nat \/ exists b, In b (a_acked m) /\ cells_subb r' b = true)
+     | _ => True
+     end).
+Proof.
+  intros cfg n tr g es H. split; [|exact lenient_means_rows]. revert H. apply ack_sound_gen. apply trace_weak_ok.
+Qed.
+Print Assumptions ack_sound_over_rows.
+
+(* Bounded waiting, counted in steps of the worker's own fetch loop instead of seconds: rank p sv is the number of
+   fetch-loop / database steps (fair_b: return of the Do that is out, expiry of the flush timer, dial, swapBuffers, call
+   of Do, return of that Do) a promise p held by worker sv still needs; it is at most 7, no request, PlanFlush or failed
+   dial interleaved in any way makes it grow (only a failing watchdog ping or Stop could: not `harmless`), every
+   fetch-loop step lowers it, and after seven of them p is completed.  In time: at most the rest of one Do, one flush
+   interval, one dial and one more Do. *)
+Theorem a_held_promise_waits_at_most_seven_worker_steps : forall sv tr sv' vs p n,
+  running sv = true -> forallb harmless tr = true -> srun sv tr = Some (sv', vs) -> rank p sv = Some n ->
+  (n <= 7)%nat /\
+  (done_in p vs = true \/ exists n', rank p sv' = Some n' /\ (n' + fairs sv tr <= n)%nat) /\
+  ((7 <= fairs sv tr)%nat -> done_in p vs = true).
+Proof.
+  intros sv tr sv' vs p n R H S K. split; [eapply rank_le_7; eauto|]. split; [eapply bounded_wait_gen; eauto|].
+  intros F. eapply bounded_wait; eauto.
+Qed.
+Print Assumptions a_held_promise_waits_at_most_seven_worker_steps.
